@@ -27,13 +27,31 @@ def _long_token_cases(path):
                         continue
                     esc = lit
                     text = 'r = { "q" ~ "%s" ~ EOI }\ns = { "q" ~ !"%s" ~ ANY }\nd = { ("%s")+ }\np = { PUSH(d) ~ " " ~ POP ~ EOI }\n' % (esc, esc, ch)
-                    inputs = ["q", "q" + lit[:-1], "q" + lit, "q" + lit + "z", "qz", lit + " " + lit[:-1] + "z", ch * count + " " + ch * (count - 1), ch * count + " "]
+                    twin = chr(ord(ch) + 1)        # a different character with the same UTF-8 lead byte(s)
+                    inputs = ["q", "q" + lit[:-1], "q" + lit, "q" + lit + "z", "qz", lit + " " + lit[:-1] + "z", ch * count + " " + ch * (count - 1), ch * count + " ",
+                              "q" + lit[:-1] + twin, "q" + "x" * lead + twin, ch * count + " " + ch * (count - 1) + twin, twin]
                     cases = []
                     for start in ("r", "s", "p"):
                         for i in inputs:
                             cases.append({"start": start, "inp": [ord(c) for c in i], "exp": {"k": "unknown"}})
                     f.write(json.dumps({"text": text, "cases": cases}) + "\n")
                     n += 1
+        # fan-out: a rule with L failing literals, (optionally) an intermediate rule, and below it a rule with B
+        # failing child rules - the shapes in which the attempt bookkeeping collapses and re-parents call stacks
+        for lits in range(0, 5):
+            for branches in range(1, 6):
+                for mid in (False, True):
+                    for ch in ("#", "\u00e9"):
+                        alts = ['"k"'] * lits + ["expr"]
+                        text = "stmt = { %s }\n" % " | ".join(alts)
+                        text += "expr = { value }\nvalue = { %s }\n" % " | ".join("b%d" % i for i in range(branches)) if mid else \
+                                "expr = { %s }\n" % " | ".join("b%d" % i for i in range(branches))
+                        text += "".join('b%d = { "%s" }\n' % (i, ch) for i in range(branches))
+                        text += "top = { stmt ~ stmt }\n"
+                        cases = [{"start": st, "inp": [ord(c) for c in i], "exp": {"k": "unknown"}}
+                                 for st in ("stmt", "top", "expr") for i in ("", "?", ch, ch + "?", "k?", chr(ord(ch[0]) + 1))]
+                        f.write(json.dumps({"text": text, "cases": cases}) + "\n")
+                        n += 1
     return n
 
 
